@@ -46,7 +46,7 @@ BASE = dict(ntasks=(1, 6), nseg=(1, 3), nleaf=(0, 3), nkinds=(1, 2), depth=1,
             p_raise=0.0, p_errleaf=0.0, p_lazyfail=0.0, p_bad=0.0, p_catch=0.0,
             p_sync=0.0, p_spawn=0.0, ctx_types=(), p_ctx=0.0, nvars=0, p_read=0.0, faulty=(),
             ncalls=1, convs=("call", "value"), p_result=0.3, containers=("Tup", "Lst", "Dct"),
-            p_dedup=0.0, p_dirty=0.0, ndfn=(1, 2), nkeys=2, p_ival=0.0, p_raiseb=0.0, p_set=0.0, p_rep=0.0, p_reuse=0.0)
+            p_dedup=0.0, p_dirty=0.0, ndfn=(1, 2), nkeys=2, p_ival=0.0, p_raiseb=0.0, p_set=0.0, p_rep=0.0, p_reuse=0.0, p_cancelb=0.0, p_fail=0.0)
 
 PROFILES = {
     "plain": dict(BASE),
@@ -100,6 +100,8 @@ PROFILES = {
     "again": dict(BASE, ntasks=(2, 7), nseg=(2, 4), nleaf=(1, 4), p_rep=0.35, p_reuse=0.35, p_lazy=0.15, p_lazyfail=0.05, p_share=0.1, p_reyield=0.2,
                   flush_modes=("ok", "ok", "itemerr"), p_catch=0.4, p_errleaf=0.05),
     "nestflush": dict(BASE, ntasks=(2, 7), nkinds=(2, 3), bases=(0, 1), nest=True, p_item=0.55, p_task=0.3, p_share=0.1, p_catch=0.3, ncalls=2),
+    "cancel": dict(BASE, ntasks=(3, 8), nkinds=(1, 3), bases=(0, 1), p_cancelb=0.35, p_catch=0.5, p_share=0.1, nseg=(2, 4)),
+    "kill": dict(BASE, ntasks=(3, 8), p_fail=0.4, p_catch=0.5, p_share=0.15, ctx_types=("async", "override"), p_ctx=0.4, nvars=1, nseg=(2, 4)),
     "everything": dict(BASE, ntasks=(2, 8), nkinds=(1, 3), bases=(0, 1), p_share=0.1, p_reyield=0.05,
                        flush_modes=("ok", "ok", "itemerr", "skip", "raise"), p_raise=0.08, p_errleaf=0.04, p_bad=0.03,
                        p_catch=0.35, p_sync=0.15, ctx_types=("async", "override"), p_ctx=0.35, nvars=1, p_read=0.3),
@@ -217,7 +219,7 @@ class Gen(object):
         spawned = []
         for k in range(1, nseg + 1):
             ops = []
-            nops = r.randint(0, 4) if (p["p_ctx"] or p["p_sync"] or p["p_read"] or p["p_spawn"] or p["p_dirty"] or p["p_ival"]) else 0
+            nops = r.randint(0, 4) if (p["p_ctx"] or p["p_sync"] or p["p_read"] or p["p_spawn"] or p["p_dirty"] or p["p_ival"] or p["p_cancelb"] or p["p_fail"]) else 0
             for _ in range(nops):
                 x = r.random()
                 if p["ctx_types"] and x < p["p_ctx"]:
@@ -259,6 +261,10 @@ class Gen(object):
                 elif p["nvars"] and x < p["p_ctx"] + p["p_sync"] + p["p_read"]:
                     v = r.randint(1, p["nvars"])
                     ops.append(op("read", v if r.random() < 0.5 or "attr" not in p["ctx_types"] else 100 + v))
+                elif p["p_cancelb"] and r.random() < p["p_cancelb"]:
+                    ops.append(op("cancelb", r.randint(1, self.nk)))
+                elif p["p_fail"] and r.random() < p["p_fail"] and len(self.created) > 2:
+                    ops.append(op("fail", r.choice([u for u in self.created if u != t] or [t])))
                 elif p["p_ival"] and r.random() < p["p_ival"]:
                     if not any(o["o"] == "ival" for o in ops):          # at most one per segment (item ids)
                         ops.append(op("ival", r.randint(1, self.nk)))
